@@ -20,6 +20,11 @@ pub const CASE: &[&str] = &[
     "\u{212a}", "k", "K", "\u{13a0}", "\u{ab70}", "\u{1c4}", "\u{1c5}", "\u{1c6}", "\u{1c89}", "\u{1c8a}",
     "\u{17f}", "s", "S", "\u{e9}", "\u{c9}", "\u{10d50}", "\u{a7cb}", "1", " ",
 ];
+/// letters in both cases next to regex metacharacters (the guard of `convert_for_case_insensitive_matching` compiles the
+/// lower-cased test case as a pattern) and letters whose std lower-casing the regex crate does not fold
+pub const CASE_META: &[&str] = &[
+    "A", "a", "B", "b", "?", "+", "(", ")", "|", ".", "*", "[", "{", "^", "$", "\\", "\u{a7dc}", "\u{130}", "K", "\u{212a}", "\u{1c89}",
+];
 pub const BOUNDARY: &[&str] = &[
     "a", "\u{7f}", "\u{80}", "\u{e9}", "\u{100}", "\u{7ff}", "\u{800}", "\u{fff}", "\u{1000}", "\u{d7ff}",
     "\u{e000}", "\u{ffff}", "\u{10000}", "\u{1f4a9}", "\u{fffff}", "\u{100000}", "\u{10fffe}", "\u{10ffff}", "-", "[",
